@@ -1,4 +1,4 @@
-package main
+package hlib
 
 import (
 	"encoding/json"
@@ -170,7 +170,7 @@ func (c *Ctx) writeResult(path string) error {
 	return os.WriteFile(path, b, 0o644)
 }
 
-func stack() string { return string(debug.Stack()) }
+func Stack() string { return string(debug.Stack()) }
 
 // Protect runs fn and converts a panic of the real code into an error.
 func Protect(fn func() error) (err error, panicked bool) {
@@ -183,8 +183,8 @@ func Protect(fn func() error) (err error, panicked bool) {
 	return fn(), false
 }
 
-// parallelDo runs fn(0..n-1) on up to workers goroutines.
-func parallelDo(n, workers int, fn func(i int)) {
+// ParallelDo runs fn(0..n-1) on up to workers goroutines.
+func ParallelDo(n, workers int, fn func(i int)) {
 	var wg sync.WaitGroup
 	ch := make(chan int)
 	for w := 0; w < workers; w++ {
